@@ -17,19 +17,41 @@ Theorem C01_ids_dense :
 Proof. exact ids_dense_fresh. Qed.
 Print Assumptions C01_ids_dense.
 
-(* Hidden tables included: the ids handed to created rows are dense too. *)
-Theorem C01_created_dense :
-  forall (r : recipe) (k : nat) (s : st),
-    run_fresh r k = Ok s ->
-    forall T, Permutation (cell_ids T (heap s)) (Zseq 1 (Z.to_nat (last_id s T))).
-Proof. exact ids_dense_created. Qed.
-Print Assumptions C01_created_dense.
+(* Any chain of continuation runs (first run fresh, each later run started from the
+   continuation file written by the previous one; any number of iterations per run): per
+   visible table, the ids written over the whole history are exactly 1..n. *)
+Theorem C01_ids_dense_history :
+  forall (r : recipe) (ks : list nat) (rowss : list (list orow)),
+    run_history r ks None = Ok rowss ->
+    forall T, hidden T = false -> exists n, Permutation (written T (concat rowss)) (Zseq 1 n).
+Proof. exact ids_dense_history. Qed.
+Print Assumptions C01_ids_dense_history.
 
-(* The invariant behind it, for every task of the evaluator and any set [miss] of ids issued
-   by earlier runs: ids issued = rows created + ids reserved by forward references. *)
+(* One run from any admissible start state (fresh, or loaded from a continuation file): the
+   ids it writes for a visible table are exactly the next block last0+1 .. last. *)
+Theorem C01_ids_dense_run :
+  forall e stmts c k s0 s,
+    start_ok s0 -> iterations k e stmts c s0 = Ok s ->
+    start_ok (upd_out s []) /\
+    forall T, last_id s0 T <= last_id s T /\
+      (hidden T = false ->
+       Permutation (written T (out s))
+                   (Zseq (last_id s0 T + 1) (Z.to_nat (last_id s T - last_id s0 T)))).
+Proof. exact ids_dense_run. Qed.
+Print Assumptions C01_ids_dense_run.
+
+(* a continued run resumes numbering immediately after the highest id recorded in the file *)
+Theorem C01_resume_after_highest :
+  forall e s c T, save s = Ok c -> last_id (load e c) T = last_id s T.
+Proof. exact resume_after_highest. Qed.
+Print Assumptions C01_resume_after_highest.
+
+(* The invariant behind it, for every task of the evaluator, any set [miss] of ids issued
+   by earlier runs and any number n0 of heap cells loaded from a continuation file:
+   ids issued = rows created by this run + ids reserved by forward references + miss. *)
 Theorem C01_invariant_step :
-  forall miss fuel e tk s s' r,
-    run fuel e tk s = Ok (s', r) -> K miss s -> K miss s' /\ bal s s'.
+  forall miss n0 fuel e tk s s' r,
+    run fuel e tk s = Ok (s', r) -> K miss n0 s -> K miss n0 s' /\ bal n0 s s'.
 Proof. exact run_K. Qed.
 Print Assumptions C01_invariant_step.
 
@@ -41,6 +63,13 @@ Definition ex_recipe : recipe :=
              [("f0", FRef "bb"); ("f1", FNested (Tpl "C" None (Some (FLitInt 0)) false [] []))]
              [SObj (Tpl "__H" None None false [] [])]);
      SObj (Tpl "B" (Some "bb") None false [("f0", FFormula [PExpr (EAttr (EVar "A") "id")])] [])].
+
+Example C01_ex_history :
+  match run_history ex_recipe [1; 2]%nat None with
+  | Ok rowss => map (fun rows => written "A" rows) rowss
+  | Err _ => []
+  end = [[1; 2]; [3; 4; 5; 6]].
+Proof. vm_compute. reflexivity. Qed.
 
 Example C01_ex_runs :
   match run_fresh ex_recipe 3 with
